@@ -1,5 +1,6 @@
 import JwtProofs.Validate
 import JwtModel.Gen.Validation
+import Props.FnTie
 /-!
 # C07 — expiry and not-before are enforced for every claim kind
 
